@@ -19,7 +19,7 @@ use num::{One, Signed, Zero};
 use std::panic::{catch_unwind, AssertUnwindSafe};
 use std::time::Instant;
 
-pub const RULE: &str = "decider 1 (taint): the C14 scalar type logs every to_f64 call with its dependency set; with debug output off every narrowed value may depend on nothing but the gamma coordinate 2E-2 (never on another coordinate, never on user masses/shifts) and every value widened back from f64 with dependencies is the gamma variate. decider 2 (precision gain): a double-double scalar (~106 bits) is pushed through the sampler on well-conditioned points and the outputs are checked with exact rational arithmetic at 1e-26*kappa instead of the 1e-13*kappa reachable in f64: u vs det(l_matrix), inverse*L-I, q_transposed*(k+shift) - sqrt(v/2lambda) q, shift vs L^-1 u_vectors, and agreement of u, v, jacobian between two routings of one point; lambda is the documented exception (its low word is 0); the L matrix against the sector formula evaluated in double-double; ill-conditioned points by the precision gain over the f64 run; decider 4: decompose_for_tropical itself on double-double copies of the C15 matrix classes (incl. weakly joined blocks) against exact rational inverse/determinant at 1e-26*cond. non-trivial = L>=2 (samples) or n>=3 (matrices); distinct = distinct case encodings";
+pub const RULE: &str = "decider 1 (taint): the C14 scalar type logs every to_f64 call with its dependency set; with debug output off every narrowed value may depend on nothing but the gamma coordinate 2E-2 (never on another coordinate, never on user masses/shifts) and every value widened back from f64 with dependencies is the gamma variate. decider 2 (precision gain): a double-double scalar (~106 bits) is pushed through the sampler on well-conditioned points and the outputs are checked with exact rational arithmetic at 1e-26*kappa instead of the 1e-13*kappa reachable in f64: u vs det(l_matrix), inverse*L-I, q_transposed*(k+shift) - sqrt(v/2lambda) q, shift vs L^-1 u_vectors, and agreement of u, v, jacobian between two routings of one point; lambda is the documented exception (its low word is 0); the L matrix against the sector formula evaluated in double-double; ill-conditioned points by the precision gain over the f64 run; decider 4: decompose_for_tropical itself on double-double copies of the C15 matrix classes (incl. weakly joined blocks) against exact rational inverse/determinant at 1e-26*cond. decider 5 (edge choice at the user's precision): one edge-choice coordinate is a double-double number at relative distance 1e-20..1e-27 above or below an exact cumulative boundary formed from the table's own f64 constants; the L matrix must follow the sector formula along the exact walk. non-trivial = L>=2 (samples), n>=3 (matrices) or E>=3 (edge choice); distinct = distinct case encodings";
 
 pub fn gen_case(t: &mut Tape, tier: Tier) -> Option<c09::Case> {
     let g = gen::gen_phys_graph(t, tier.pick(7, 8), 5, 0.3, 6)?;
@@ -399,15 +399,204 @@ pub fn check_matrix(c: &super::c15::Case, ctx: &mut Ctx) -> Result<(), Failure> 
     Ok(())
 }
 
+// ------------------------------------------------------------------ decider 5: the edge choice at the user's precision
+/// One edge-choice coordinate is placed at a relative distance 1e-20..1e-27 from an exact cumulative boundary of the
+/// tropical edge distribution (formed in exact rational arithmetic from the f64 constants of the sampler's own table).
+/// A double-double evaluation of the cumulative sums is accurate to ~1e-31, so the comparison must come out on the
+/// exact side; any f64 arithmetic on the way (f64 quotients of table constants, an f64 running sum, a narrowed
+/// coordinate) moves the boundary by ~1e-17 and flips the choice on one of the two sides. The choice is observed
+/// through the returned L matrix, compared with the sector formula evaluated in double-double along the exact walk.
+#[derive(Clone, Debug, serde::Serialize, serde::Deserialize)]
+pub struct EdgeCase {
+    pub p: Phys,
+    /// which edge-choice step (mod E-1) is moved to a boundary
+    pub step: usize,
+    /// which cumulative boundary of that step (mod number of boundaries below 1)
+    pub bidx: usize,
+    pub above: bool,
+    /// -log10 of the relative distance from the boundary
+    pub lg: f64,
+}
+pub fn gen_edge(t: &mut Tape, tier: Tier) -> Option<EdgeCase> {
+    let g = gen::gen_phys_graph(t, tier.pick(7, 8), 5, 0.15, 6)?;
+    let kin = gen::gen_kin_unit(t, &g, 2);
+    let prof = gen::PointProfile { u_w: [0.6, 0.4, 0.0, 0.0], xi_w: [0.0, 0.1, 0.9, 0.0], lambda_tail: 0.0, bm_extreme: 0.0 };
+    let (x, classes) = gen::gen_point(t, &g, &prof);
+    let step = t.below(g.nedges().max(2) - 1);
+    let bidx = t.below(8);
+    let above = t.bool();
+    let lg = t.uniform(20.0, 27.0);
+    Some(EdgeCase { p: Phys { g, kin, x, classes: classes.into_iter().map(String::from).collect() }, step, bidx, above, lg })
+}
+fn q_to_dd(v: &Q) -> DD {
+    let hi = qf(v);
+    let lo = qf(&(v - crate::oracle::graph::q(hi)));
+    DD::new(hi, lo)
+}
+fn edge_d<const D: usize>(c: &EdgeCase, ctx: &mut Ctx) -> Result<(), Failure> {
+    let p = &c.p;
+    let g = &p.g;
+    let (ne, nl) = (g.nedges(), g.num_loops());
+    if ne < 2 {
+        ctx.label("edge:skip-single-edge");
+        return Ok(());
+    }
+    let s = match sut::build::<D>(g, p.kin.sig.clone()) {
+        Ok(s) => s,
+        Err(_) => {
+            ctx.label("skip:not-built");
+            return Ok(());
+        }
+    };
+    let tab = sut::table_of(&s).map_err(|e| Failure::new("table-unreadable", e))?;
+    let omega: Vec<f64> = tab.entries.iter().map(|e| e.omega).collect();
+    let jt: Vec<f64> = tab.entries.iter().map(|e| e.j).collect();
+    // (the entry of the full graph carries omega = 0 by definition and is never divided by)
+    if omega[..omega.len() - 1].iter().chain(jt.iter()).any(|v| !(v.is_finite() && *v > 0.0)) {
+        ctx.label("edge:skip-table-not-positive");
+        return Ok(());
+    }
+    // exact walk with the sampler's own table constants
+    let target_step = c.step % (ne - 1);
+    let mut xdd: Vec<DD> = p.x.iter().map(|&v| DD::f(v)).collect();
+    let mut sub = g.full();
+    let mut order = vec![];
+    let mut placed = None;
+    for step in 0..ne {
+        if (sub as u64).count_ones() == 1 {
+            order.push(sub.trailing_zeros() as usize);
+            break;
+        }
+        let cp = crate::oracle::path::cum_exact(ne, sub, &omega, &jt);
+        let uq: Q = if step == target_step {
+            let k = c.bidx % (cp.len() - 1);
+            let cq = &cp[k].1;
+            let delta = crate::oracle::graph::q(10f64.powf(-c.lg));
+            let tgt = if c.above { cq * (Q::one() + &delta) } else { cq * (Q::one() - &delta) };
+            let u = q_to_dd(&tgt);
+            let uq = u.q();
+            let dist = qf(&((&uq - cq) / cq).abs());
+            let dl = 10f64.powf(-c.lg);
+            if !(u.hi > 0.0 && u.hi < 1.0) || !(dist >= 0.5 * dl && dist <= 2.0 * dl) || (uq > *cq) != c.above {
+                ctx.label("edge:skip-boundary-not-representable");
+                return Ok(());
+            }
+            xdd[2 * step] = u;
+            placed = Some((k, dist));
+            uq
+        } else {
+            let uq = crate::oracle::graph::q(p.x[2 * step]);
+            let gap = cp.iter().map(|(_, cq)| qf(&(cq - &uq).abs())).fold(f64::INFINITY, f64::min);
+            if gap < 1e-9 {
+                ctx.label("edge:skip-other-step-ambiguous");
+                return Ok(());
+            }
+            uq
+        };
+        let e = cp.iter().find(|(_, cq)| *cq >= uq).map(|(e, _)| *e).unwrap_or(cp.last().unwrap().0);
+        order.push(e);
+        sub ^= 1 << e;
+    }
+    let Some((k, dist)) = placed else {
+        ctx.label("edge:skip-step-not-reached");
+        return Ok(());
+    };
+    // sector formula in double-double along the exact walk
+    let one = DD::f(1.0);
+    let mut kappa = one;
+    let mut x0 = vec![one; ne];
+    let (mut ut, mut vt) = (one, one);
+    let mut sub = g.full();
+    let mut sens = 0.0f64;
+    let mut lnk = 0.0f64;
+    let mut spread = 0.0f64;
+    for (step, &e) in order.iter().enumerate() {
+        x0[e] = kappa;
+        spread = spread.max(lnk.abs());
+        let nxt = sub ^ (1 << e);
+        if tab.entries[sub].spanning && !tab.entries[nxt].spanning {
+            vt = x0[e];
+        }
+        if tab.entries[nxt].loops < tab.entries[sub].loops {
+            ut = ut * x0[e];
+        }
+        sub = nxt;
+        if sub != 0 {
+            let xi = p.x[2 * step + 1];
+            kappa = kappa * DD::f(xi).powf(&DD::f(omega[sub]).inv());
+            sens += xi.ln().abs() / omega[sub];
+            lnk += xi.ln() / omega[sub];
+        }
+    }
+    if spread > 40.0 || !kappa.is_finite() {
+        ctx.label("edge:skip-spread");
+        return Ok(());
+    }
+    let dh = D as f64 / 2.0;
+    let xit = ut * vt;
+    let target = ut.powf(&DD::f(-dh)) * (ut / xit).powf(&DD::f(tab.dod));
+    let scaling = target.powf(&DD::f(dh * nl as f64 + tab.dod).inv());
+    let xs: Vec<DD> = x0.iter().map(|x| *x * scaling).collect();
+    if !xs.iter().all(|x| x.is_finite() && x.hi > 1e-100 && x.hi < 1e100) {
+        ctx.label("edge:skip-magnitude");
+        return Ok(());
+    }
+    let amp = 1.0 + sens + target.hi.ln().abs();
+    // run the sampler
+    let ed: Vec<(Option<DD>, Vector<DD, D>)> = (0..ne).map(|e| (if g.massive[e] { Some(DD::f(p.kin.masses[e])) } else { None }, Vector::from_array(std::array::from_fn(|i| DD::f(p.kin.shifts[e][i]))))).collect();
+    let st = sut::settings(None, false, true);
+    let r = match catch_unwind(AssertUnwindSafe(|| s.generate_sample_from_x_space_point(&xdd, ed, &st, &NoLog))) {
+        Ok(Ok(r)) => r,
+        Ok(Err(_)) => {
+            ctx.label("edge:skip-sample-error");
+            return Ok(());
+        }
+        Err(_) => fail!("sample-panic", "sampling with the double-double scalar panicked: {}; case {c:?}", take_panic()),
+    };
+    let Some(md) = r.metadata.as_ref() else { fail!("no-metadata", "no metadata") };
+    let lq = mat_q(&md.l_matrix);
+    for i in 0..nl {
+        for j in 0..nl {
+            let mut want = Q::zero();
+            let mut absum = 0.0;
+            for e in 0..ne {
+                let cf = (p.kin.sig[e][i] * p.kin.sig[e][j]) as f64;
+                want += xs[e].q() * crate::oracle::graph::q(cf);
+                absum += (xs[e].hi * cf).abs();
+            }
+            let err = qf(&(&lq[i][j] - &want).abs());
+            let t_ = 1e-24 * amp * absum;
+            if !(err <= t_) {
+                fail!("dd-edge-choice-precision", "double-double run with edge-choice coordinate {} at relative distance {dist:e} ({}) from the exact cumulative boundary {k} of step {target_step}: L[{i}][{j}] differs from the sector formula along the exact walk {order:?} by {err:e} > {t_:e} - the edge was chosen with less than the user's precision; case {c:?}", 2 * target_step, if c.above { "above" } else { "below" });
+            }
+        }
+    }
+    ctx.label(if c.above { "edge:checked-above-boundary" } else { "edge:checked-below-boundary" });
+    ctx.label(format!("edge:distance-1e-{}", c.lg.floor() as i64));
+    if ne >= 3 {
+        ctx.nontrivial();
+    }
+    Ok(())
+}
+pub fn check_edge(c: &EdgeCase, ctx: &mut Ctx) -> Result<(), Failure> {
+    phys::validate(&c.p)?;
+    if !(c.lg >= 18.0 && c.lg <= 28.0) {
+        fail!("bad-case", "distance exponent outside [18,28]");
+    }
+    with_d!(c.p.g.d, edge_d(c, ctx))
+}
+
 #[derive(Clone, Debug, serde::Serialize, serde::Deserialize)]
 #[serde(untagged)]
 pub enum Any {
     Sample(c09::Case),
+    Edge(EdgeCase),
     Matrix(super::c15::Case),
 }
 pub fn check_any(c: &Any, ctx: &mut Ctx) -> Result<(), Failure> {
     match c {
         Any::Sample(s) => check(s, ctx),
+        Any::Edge(e) => check_edge(e, ctx),
         Any::Matrix(m) => check_matrix(m, ctx),
     }
 }
@@ -418,6 +607,8 @@ pub fn run(tier: Tier, seed: u64) -> i32 {
     let mut stats = engine::run_spec(&sp, tier, seed);
     let sp2 = Spec { id: "C19", rule: RULE, tape_len: 260, cases: tier.pick(20_000, 300_000), gen: gen_matrix, check: check_matrix, max_shrink_iters: 1500, shards: 16 };
     stats.merge(engine::run_spec(&sp2, tier, seed ^ 0x1919));
+    let sp3 = Spec { id: "C19", rule: RULE, tape_len: 320, cases: tier.pick(20_000, 200_000), gen: gen_edge, check: check_edge, max_shrink_iters: 1500, shards: 16 };
+    stats.merge(engine::run_spec(&sp3, tier, seed ^ 0x1920));
     engine::run_regressions::<Any>("C19", check_any, &mut stats);
     engine::finish("C19", tier, seed, RULE, stats, t0, serde_json::json!({}), &["the double-double scalar is accurate to ~1e-31 relative for + - * / sqrt exp ln sin cos (validated against exact rational Taylor sums at design time)", "tolerance 1e-26*kappa: five orders above the measured double-double error, ten orders below an f64 detour"])
 }
